@@ -99,6 +99,9 @@ DimersVerdict(t, q, tab, ucpts) ==
   IF bad # {} THEN shell(CHOOSE a \in bad : \A b \in bad : a <= b) ELSE
   IF \E i \in P : q.pairs[i].d2 # ClosestD2(t.gram, cents[q.pairs[i].a], ObsPoints(q.pairs[i].atoms)) THEN "REJECT Separation" \o tag ELSE
   IF \E i \in P : \E j \in P : q.pairs[i].cls = q.pairs[j].cls /\ q.pairs[i].d2 # q.pairs[j].d2 THEN "REJECT ClassDistance" \o tag ELSE
+  \* the transform a dimer carries is a proper rotation that fits its own two molecules as well as any (not the transform of
+  \* another dimer of its class); residuals in 1e-4 A, reference fit by the harness
+  IF \E i \in P : q.pairs[i].fit.has /\ (~q.pairs[i].fit.orth \/ q.pairs[i].fit.res > q.pairs[i].fit.ref + 10) THEN "REJECT DimerTransform" \o tag ELSE
   IF {q.pairs[i].cls : i \in P} # 1..Len(q.reps) THEN "REJECT ClassIndex" \o tag ELSE
   IF \E r \in DOMAIN q.reps : ~\E i \in P : /\ q.pairs[i].cls = r /\ q.pairs[i].a = q.reps[r].a
                                                /\ ObsPoints(q.pairs[i].atoms) = ObsPoints(q.reps[r].atoms)
